@@ -34,7 +34,17 @@ def main(tier):
         pool.close()
     for v in total.violations:
         rep.add_violation(v)
-    rep.internal = total.internal
+    rep.internal = list(total.internal)
+    # the real SemLock constructor against the real tracker client, every thread schedule
+    from . import c12s
+    sr = c12s.explore_all(2 if tier == "quick" else 4, {"sem-cold-2": 4 if tier == "quick" else 6},
+                          programs=list(c12s.SEM_PROGRAMS))
+    for v in sr["violations"]:
+        if v["signature"].startswith("C13:"):
+            rep.add_violation(dict(signature=v["signature"], msg=v["msg"], program=v["program"],
+                                   prefix=v["prefix"], engine="c12s"))
+    for i in sr["internal"]:
+        rep.internal.append(i)
     from ..real import treereal
     r = treereal.run_c13(tier)
     for sig, msg, case in r["violations"]:
@@ -43,11 +53,15 @@ def main(tier):
         evaluations=total.executions + r["cases"], distinct_nontrivial=total.executions + r["cases"],
         samples=(r["samples"] + total.samples)[:5], simulated_executions=total.executions,
         real_cases=r["cases"], states=len(total.states), transitions=len(total.transitions),
+        constructor_schedules=sr["executions"], constructor_schedules_per_program=sr["per_program"],
         exhaustive=False,
         rule="(R) product of 5 histories x 3-4 endings (+ unreleased primitives) on real process "
              "trees, each a distinct case; (S) every execution within deviation bound 1 "
              "(schedules, timeouts, worker kills) of 8 lifecycle programs, tracker message log "
-             "checked against the simulated semaphore namespace")
+             "checked against the simulated semaphore namespace; (C) the real SemLock "
+             "constructor + real tracker client in 2-3 racing threads over a modelled OS, every "
+             "schedule with <= 2 (quick) / 4 (thorough) preemptions: no name left unlinked and "
+             "unknown to a surviving tracker at the normal end of the process")
     rep.assumptions = ["after the root ends the harness ends the remaining workers itself (the "
                        "property speaks of the tree's end) and keeps the tracker alive",
                        "kill of the parent at arbitrary points is covered on real processes only "
